@@ -13,7 +13,7 @@ IMPORTS = ('phylib.utils._misc',)
 FLOATS = {'f05': 0.5, 'fm25': -2.5, 'f15': 1.5, 'f123456': 1.23456}
 STRINGS = {'abc': 'abc', 'd12': 'd12', '': '', 'name': 'name', 'n12x': 'n12x', 'x': 'x', 'y': 'y',
            'good': 'good', 'has_comma': 'a,b', 'has_tab': 'a\tb', 'has_quote': 'say "hi", ok',
-           'has_space': ' two words ', 'e5x': '1e5x'}
+           'has_space': ' two words ', 'e5x': '1e5x', 'plusnum': ' +1_0 '}
 RSTRINGS = {v: k for k, v in STRINGS.items()}
 
 
@@ -241,7 +241,7 @@ def _random_records(ctx, d, count):
     for rid in range(1, count + 1):
         if rid % 2:
             key = [dict(k='int', i=int(rng.randint(-5, 100))), dict(k='str', s='name'),
-                   dict(k='str', s='n12x')][rng.randint(3)]
+                   dict(k='str', s='n12x'), dict(k='str', s='plusnum')][rng.randint(4)]
             value = _rand_value(rng, 2)
             with ctx.guard('json', dict(key=key, value=value)):
                 k, v = json_roundtrip(d, key, value)
